@@ -9,7 +9,7 @@ import importlib
 import json
 import sys
 
-GREYS = [(v, v, v) for v in (0, 17, 51, 85, 102, 119, 128, 136, 153, 170, 187, 204, 221, 238, 255)]
+GREYS = [(v, v, v) for v in (0, 17, 51, 85, 90, 102, 119, 128, 136, 153, 170, 187, 204, 221, 238, 255)]
 HUES = [(255, 0, 0), (0, 255, 0), (0, 0, 255), (255, 255, 0), (0, 255, 255), (255, 0, 255),
         (128, 0, 0), (0, 128, 0), (0, 0, 128), (128, 128, 0), (0, 128, 128), (128, 0, 128),
         (255, 165, 0), (255, 192, 203), (165, 42, 42), (75, 0, 130), (240, 230, 140), (46, 139, 87),
@@ -50,7 +50,7 @@ def pairs():
 
 def main():
     check_id, kind, job = sys.argv[1], sys.argv[2], json.loads(sys.argv[3])
-    limit = int(sys.argv[4]) if len(sys.argv) > 4 else 4000
+    limit = int(sys.argv[4]) if len(sys.argv) > 4 else 12000
     sys.path.insert(0, __import__("os").path.dirname(__import__("os").path.dirname(__import__("os").path.abspath(__file__))))
     from vf import repo
     from vf.runner import unjson, jsonable
